@@ -114,6 +114,16 @@ def rotateRaw (fl : K → Int) (b : Box K) (U : M3 Int) (atoms : List (Atom K)) 
   let nb : Box K := ⟨newVects U b.vects, ⟨0, 0, 0⟩⟩
   some (nb, sup.filter fun a => inHalfOpen (nb.cartToRel a.pos))
 
+/-- `rotate` (before `normalize`) with the code's own expected-count test
+    `newnatoms = round(newvolume / volume) · natoms = |det U| · natoms`: a different number of kept atoms is
+    the error "Filtering failed" (`filter`); `value` = parallel or planar vectors. -/
+def rotateChecked (fl : K → Int) (b : Box K) (U : M3 Int) (atoms : List (Atom K)) :
+    Except String (Box K × List (Atom K)) :=
+  match rotateRaw fl b U atoms with
+  | none => .error "value"
+  | some (nb, kept) =>
+    if kept.length = (M3.det U).natAbs * atoms.length then .ok (nb, kept) else .error "filter"
+
 end
 
 end Atomman.C04
